@@ -91,12 +91,12 @@ def vbswriter_write_unit(E, blocked):
         E.prove(tag + '/pos-at-end', E.as_int(E.getf(f, 'pos')) == want.n, 'I')
 
 
-@unit('VbsWriter.write[vbs]/post', props=['C03'], functions=[M + 'VbsWriter.write'])
+@unit('VbsWriter.write[vbs]/post', props=['C03', 'C06'], functions=[M + 'VbsWriter.write'])
 def u_w_write_v(E):
     vbswriter_write_unit(E, False)
 
 
-@unit('VbsWriter.write[1014]/post', props=['C03'], functions=[M + 'VbsWriter.write'])
+@unit('VbsWriter.write[1014]/post', props=['C03', 'C06'], functions=[M + 'VbsWriter.write'])
 def u_w_write_b(E):
     vbswriter_write_unit(E, True)
 
@@ -120,12 +120,12 @@ def vbswriter_close_unit(E, blocked, how='close'):
     return w, sink, f, stream, content
 
 
-@unit('VbsWriter.close[vbs]/post', props=['C03', 'C11'], functions=[M + 'VbsWriter.close'])
+@unit('VbsWriter.close[vbs]/post', props=['C03', 'C11', 'C06'], functions=[M + 'VbsWriter.close'])
 def u_w_close_v(E):
     vbswriter_close_unit(E, False)
 
 
-@unit('VbsWriter.close[1014]/post', props=['C03', 'C11'], functions=[M + 'VbsWriter.close', M + 'Block1014.write', M + 'Block1014.seek', M + 'Block1014.finalise'])
+@unit('VbsWriter.close[1014]/post', props=['C03', 'C11', 'C06'], functions=[M + 'VbsWriter.close', M + 'Block1014.write', M + 'Block1014.seek', M + 'Block1014.finalise'])
 def u_w_close_b(E):
     vbswriter_close_unit(E, True)
 
@@ -192,7 +192,7 @@ for _b in (False, True):
                  functions=[M + 'VbsWriter.close', M + 'VbsWriter.__exit__'])(_mk())
 
 
-@unit('VbsWriter.__init__+__enter__', props=['C03', 'C11'], functions=[M + 'VbsWriter.__init__', M + 'VbsWriter.__enter__', M + 'Block1014.__init__'])
+@unit('VbsWriter.__init__+__enter__', props=['C03', 'C11', 'C06'], functions=[M + 'VbsWriter.__init__', M + 'VbsWriter.__enter__', M + 'Block1014.__init__'])
 def u_w_init(E):
     for blocked in (False, True):
         f = E.new_file(seq_lit('bytes', b''), 0)
@@ -284,7 +284,7 @@ def vbsreader_next_checks(E, tag, rd, f, Sx, q, k, call, tier='P'):
     return ('record', rec)
 
 
-@unit('VbsReader.__next__/total-contract', props=['C03', 'C05', 'C07', 'C09', 'C10'], functions=[M + 'VbsReader.__next__', 'cardutil.CardutilError.__init__'])
+@unit('VbsReader.__next__/total-contract', props=['C03', 'C05', 'C07', 'C09', 'C10', 'C06'], functions=[M + 'VbsReader.__next__', 'cardutil.CardutilError.__init__'])
 def u_r_next(E):
     rd, f, Sx, q, k = reader_state(E)
     E.native_input({'kind': 'stream', 'S': Sx, 'q': VInt(q)})
@@ -307,7 +307,7 @@ def u_r_progress(E):
     E.prove('VbsReader.__next__/within-stream', E.as_int(E.getf(f, 'pos')) <= Sx.n, 'P', 'variant')
 
 
-@unit('VbsReader.__init__+__iter__', props=['C03', 'C05'], functions=[M + 'VbsReader.__init__', M + 'VbsReader.__iter__', M + 'Unblock1014.__init__'])
+@unit('VbsReader.__init__+__iter__', props=['C03', 'C05', 'C06'], functions=[M + 'VbsReader.__init__', M + 'VbsReader.__iter__', M + 'Unblock1014.__init__'])
 def u_r_init(E):
     C = E.fresh_seq('bytes', 'C')
     for blocked in (False, True):
@@ -346,7 +346,7 @@ def install_unblocker_contract(E):
     E.contracts[M + 'Unblock1014.read'] = apply_read
 
 
-@unit('VbsReader.__next__[1014]/same-as-unblocked-stream', props=['C05', 'C03', 'C09'], functions=[M + 'VbsReader.__next__', M + 'Unblock1014.read'])
+@unit('VbsReader.__next__[1014]/same-as-unblocked-stream', props=['C05', 'C03', 'C09', 'C06'], functions=[M + 'VbsReader.__next__', M + 'Unblock1014.read'])
 def u_r_next_blocked(E):
     """record reading from a blocked file = record reading from the payload stream (interface refinement)"""
     C = E.fresh_seq('bytes', 'C')
@@ -412,12 +412,12 @@ def written_record_unit(E, terminator):
     E.prove('reader-returns-written-record/next-offset', E.as_int(E.getf(f, 'pos')) == q + 4 + R.n, 'P', 'lemma')
 
 
-@unit('reader-inverts-writer/record', props=['C03'], functions=[M + 'VbsReader.__next__', M + 'VbsWriter.write'])
+@unit('reader-inverts-writer/record', props=['C03', 'C06'], functions=[M + 'VbsReader.__next__', M + 'VbsWriter.write'])
 def u_step_record(E):
     written_record_unit(E, False)
 
 
-@unit('reader-inverts-writer/terminator', props=['C03'], functions=[M + 'VbsReader.__next__', M + 'VbsWriter.close'])
+@unit('reader-inverts-writer/terminator', props=['C03', 'C06'], functions=[M + 'VbsReader.__next__', M + 'VbsWriter.close'])
 def u_step_term(E):
     written_record_unit(E, True)
 
@@ -597,7 +597,7 @@ def u_frames(E):
 
 # ---------------------------------------------------------------- convenience functions (2 symbolic records)
 
-@unit('vbs_list_to_bytes+vbs_bytes_to_list/two-records', props=['C03'], functions=[M + 'vbs_list_to_bytes', M + 'vbs_bytes_to_list', M + 'VbsWriter.write_many'])
+@unit('vbs_list_to_bytes+vbs_bytes_to_list/two-records', props=['C03', 'C06'], functions=[M + 'vbs_list_to_bytes', M + 'vbs_bytes_to_list', M + 'VbsWriter.write_many'])
 def u_convenience(E):
     """glue of the convenience functions on a two-record list with fully symbolic records
     (record COUNT is concrete here; any count follows from the step lemmas)"""
